@@ -1381,3 +1381,92 @@ Proof. apply (proj1 (proj2 rfc_included)). Qed.
 (* every RFC 8259 document is accepted and yields the value it denotes *)
 Theorem rfc_complete t v : rfc_text t v -> parse_value t = Ok v.
 Proof. intros H. apply grammar_complete, rfc_text_jtext, H. Qed.
+
+(* ================================================================== a text that parses is valid UTF-8 *)
+Lemma utf8_valid_app_n : forall n a b, (length a <= n)%nat -> utf8_valid a = true -> utf8_valid (a ++ b) = utf8_valid b.
+Proof.
+  induction n as [|n IH]; intros a b Hl Hv.
+  - destruct a; [reflexivity|cbn [length] in Hl; lia].
+  - destruct a as [|b0 r]; [reflexivity|]. cbn [length] in Hl. cbn [app utf8_valid] in *.
+    destruct (b0 <? 128); [apply IH; [lia|exact Hv]|].
+    destruct (in_rng 194 223 b0).
+    { destruct r as [|b1 r1]; [discriminate Hv|]. cbn [app length] in *. apply andb_true_iff in Hv. destruct Hv as [H1 H2].
+      rewrite H1. cbn [andb]. apply IH; [lia|exact H2]. }
+    destruct (in_rng 224 239 b0).
+    { destruct r as [|b1 [|b2 r2]]; try discriminate Hv. cbn [app length] in *.
+      apply andb_true_iff in Hv. destruct Hv as [H1 H2]. rewrite H1. cbn [andb]. apply IH; [lia|exact H2]. }
+    destruct (in_rng 240 244 b0); [|discriminate Hv].
+    destruct r as [|b1 [|b2 [|b3 r3]]]; try discriminate Hv. cbn [app length] in *.
+    apply andb_true_iff in Hv. destruct Hv as [H1 H2]. rewrite H1. cbn [andb]. apply IH; [lia|exact H2].
+Qed.
+Lemma utf8_valid_app a b : utf8_valid a = true -> utf8_valid b = true -> utf8_valid (a ++ b) = true.
+Proof. intros Ha Hb. rewrite (utf8_valid_app_n (length a) a b (le_n _) Ha). exact Hb. Qed.
+Lemma utf8_ascii e : Forall (fun c => c < 128) e -> utf8_valid e = true.
+Proof. intros H. rewrite <- (app_nil_r e), (utf8_ascii_prefix e [] H). reflexivity. Qed.
+Lemma utf8_cons_ascii c t : c < 128 -> utf8_valid t = true -> utf8_valid (c :: t) = true.
+Proof. intros Hc Ht. cbn [utf8_valid]. replace (c <? 128) with true by (symmetry; apply N.ltb_lt; exact Hc). exact Ht. Qed.
+
+Lemma jws_utf8 w : jws w -> utf8_valid w = true.
+Proof.
+  induction 1 as [|c w Hc _ IH|w _ IH|x w Hx _ IH|w _ IH].
+  - reflexivity.
+  - apply utf8_cons_ascii; [lia|exact IH].
+  - apply utf8_cons_ascii; [lia|exact IH].
+  - apply utf8_cons_ascii; [lia|]. apply utf8_cons_ascii; [lia|exact IH].
+  - repeat (apply utf8_cons_ascii; [lia|]). exact IH.
+Qed.
+Lemma digits_ascii ds : digits ds -> Forall (fun c => c < 128) ds.
+Proof.
+  unfold digits. apply Forall_impl. intros c H. unfold is_digit in H. apply andb_true_iff in H. destruct H as [_ H].
+  apply N.leb_le in H. lia.
+Qed.
+Lemma jnumber_utf8 t n : jnumber t n -> utf8_valid t = true.
+Proof.
+  intros H. apply utf8_ascii. destruct H as [neg ids tf fd te e Hi Hf He].
+  apply Forall_app; split; [|apply Forall_app; split; [|apply Forall_app; split]].
+  - destruct neg; repeat constructor.
+  - destruct Hi as [|d ds Hd _ Hds]; [repeat constructor|]. apply (digits_ascii (d :: ds)). constructor; assumption.
+  - destruct Hf as [|fd _ Hd]; [constructor|]. constructor; [lia|apply digits_ascii; exact Hd].
+  - destruct He as [|e sg neg' ed He Hs _ Hd]; [constructor|]. constructor; [lia|]. apply Forall_app. split.
+    + destruct Hs; repeat constructor.
+    + apply digits_ascii; exact Hd.
+Qed.
+Lemma jstring_utf8 t s : jstring t s -> utf8_valid t = true.
+Proof.
+  intros [b s' Hb Hs]. apply utf8_cons_ascii; [lia|]. apply utf8_valid_app; [|reflexivity].
+  rewrite (body_utf8 b s' Hb). exact Hs.
+Qed.
+Lemma jkey_utf8 t k : jkey t k -> utf8_valid t = true.
+Proof.
+  intros [w1 t' k' w2 H1 Hs H2]. apply utf8_valid_app; [apply jws_utf8; exact H1|].
+  apply utf8_valid_app; [apply (jstring_utf8 _ _ Hs)|apply jws_utf8; exact H2].
+Qed.
+
+Lemma grammar_utf8_mut :
+  (forall t v, jvalue t v -> utf8_valid t = true) /\ (forall t v, jelement t v -> utf8_valid t = true) /\
+  (forall t l, jelements t l -> utf8_valid t = true) /\ (forall t ms, jmembers t ms -> utf8_valid t = true).
+Proof.
+  apply jvalue_mutind.
+  - reflexivity.
+  - reflexivity.
+  - reflexivity.
+  - intros t n H. apply (jnumber_utf8 t n H).
+  - intros t s H. apply (jstring_utf8 t s H).
+  - intros w Hw. apply utf8_cons_ascii; [lia|]. apply utf8_valid_app; [apply jws_utf8; exact Hw|reflexivity].
+  - intros t l _ IH. apply utf8_cons_ascii; [lia|]. apply utf8_valid_app; [exact IH|reflexivity].
+  - intros w Hw. apply utf8_cons_ascii; [lia|]. apply utf8_valid_app; [apply jws_utf8; exact Hw|reflexivity].
+  - intros t ms _ IH. apply utf8_cons_ascii; [lia|]. apply utf8_valid_app; [exact IH|reflexivity].
+  - intros w1 t v w2 H1 _ IH H2. apply utf8_valid_app; [apply jws_utf8; exact H1|].
+    apply utf8_valid_app; [exact IH|apply jws_utf8; exact H2].
+  - intros t v _ IH. exact IH.
+  - intros t v ts l _ IH1 _ IH2. apply utf8_valid_app; [exact IH1|]. apply utf8_cons_ascii; [lia|exact IH2].
+  - intros tk k tv v Hk _ IH. apply utf8_valid_app; [apply (jkey_utf8 _ _ Hk)|]. apply utf8_cons_ascii; [lia|exact IH].
+  - intros tk k tv v ts ms Hk _ IH1 _ IH2. apply utf8_valid_app; [apply (jkey_utf8 _ _ Hk)|]. apply utf8_cons_ascii; [lia|].
+    apply utf8_valid_app; [exact IH1|]. apply utf8_cons_ascii; [lia|exact IH2].
+Qed.
+(* the whole text, not only its strings: white space, punctuation, numbers and literals are ASCII, a string literal is
+   UTF-8 between its quotes exactly when the string it denotes is (body_utf8), and the parser checks the latter *)
+Theorem jtext_utf8 t v : jtext t v -> utf8_valid t = true.
+Proof. apply (proj1 (proj2 grammar_utf8_mut)). Qed.
+Theorem parsed_text_is_utf8 t v : parse_value t = Ok v -> utf8_valid t = true.
+Proof. intros H. apply (jtext_utf8 t v), grammar_sound, H. Qed.
